@@ -596,6 +596,28 @@ func Ancestors(g *gen.DAG, n int) []int {
 	return out
 }
 
+// FilteredAncestors is the upward closure of n following only predecessors that keep accepts.
+func FilteredAncestors(g *gen.DAG, n int, keep func(int) bool) []int {
+	seen := map[int]bool{n: true}
+	stack := []int{n}
+	for len(stack) > 0 {
+		cur := stack[len(stack)-1]
+		stack = stack[:len(stack)-1]
+		for _, p := range g.Preds(cur) {
+			if !seen[p] && keep(p) {
+				seen[p] = true
+				stack = append(stack, p)
+			}
+		}
+	}
+	out := make([]int, 0, len(seen))
+	for k := range seen {
+		out = append(out, k)
+	}
+	sort.Ints(out)
+	return out
+}
+
 // ReferrerAncestors is the upward closure of n under subject links only.
 func ReferrerAncestors(g *gen.DAG, n int) []int {
 	seen := map[int]bool{n: true}
@@ -626,6 +648,12 @@ func (c *Case) ExpectedSet() []int {
 	case "ExtendedCopyGraph", "ExtendedCopy":
 		if c.SubjectOnly {
 			return c.G.Reach(ReferrerAncestors(c.G, c.Root)...)
+		}
+		if c.FilterAnno != "" {
+			return c.G.Reach(FilteredAncestors(c.G, c.Root, func(p int) bool {
+				_, ok := c.G.Nodes[p].Annotations[c.FilterAnno]
+				return ok
+			})...)
 		}
 		return c.G.Reach(Ancestors(c.G, c.Root)...)
 	}
